@@ -744,7 +744,16 @@ class LDAPFilter:
             LDAPFilter: The converted filter.
         """
         filter = filter.strip()
-        b_filter = filter.encode("utf-8", errors="surrogateescape")
+        try:
+            b_filter = filter.encode("utf-8", errors="surrogateescape")
+        except UnicodeEncodeError as e:
+            # A lone surrogate that is not an escaped raw byte (U+DC80-U+DCFF).
+            raise FilterSyntaxError(
+                "Filter contains a character that cannot be encoded as UTF-8",
+                filter=filter,
+                offset=e.start,
+                length=e.end - e.start,
+            ) from None
         filter_view = memoryview(b_filter)
         try:
             filter_obj, consumed = _unpack_filter(filter, filter_view, 0, len(b_filter))
